@@ -2218,6 +2218,19 @@ class Emitter:
     def m_int_saturating_add(self, e, rt, rty, env, k):
         return self.sat(e, rt, rty, env, k, "+")
 
+    def m_int_checked_sub(self, e, rt, rty, env, k):
+        """`a.checked_sub(b)` on an unsigned integer: `Some(a - b)` when `b <= a`, else `None` (no panic)"""
+        if WIDTH.get(rty[1]) is None or str(rty[1]).startswith("i"):
+            raise EmitError("checked_sub on %r" % (rty,))
+        return self.expr(e.args[0], env, lambda t, _ty, env1: k("(if %s <=? %s then Some (%s - %s) else None)" % (t, rt, rt, t), ("opt", rty), env1),
+                         expect=rty)
+
+    def m_int_wrapping_sub(self, e, rt, rty, env, k):
+        w = WIDTH.get(rty[1])
+        if w is None or str(rty[1]).startswith("i"):
+            raise EmitError("wrapping_sub on %r" % (rty,))
+        return self.expr(e.args[0], env, lambda t, _ty, env1: k("((%s + %d - %s) mod %d)" % (rt, 2 ** w, t, 2 ** w), rty, env1), expect=rty)
+
     def sat(self, e, rt, rty, env, k, op):
         w = WIDTH.get(rty[1])
         if w is None:
